@@ -248,6 +248,58 @@ class C17(core.Check):
                 else:
                     moves.append({"to": S(add(o, fr.D(rq(rng, 1, 4), rq(rng, 1, 3) * rng.choice([1, -1]), rq(rng, -3, 3))))})
             cases.append({"kind": "rlink", "axis": S(axis), "o": S(o), "leader": S(leader), "follower": S(follower), "moves": moves})
+        # Round 4: (a) plane normals close to a coordinate axis, tilted towards both other axes
+        for i in range(12 * mult):
+            axis = i % 3
+            n = [Fr(0)] * 3
+            n[axis] = Fr(rng.choice([1, -1, 2, -2]))
+            for j in range(3):
+                if j != axis:
+                    n[j] = Fr(rng.choice([-4, -3, -2, -1, 1, 2, 3, 4]), 10)
+            point = rvec(rng, -2, 2, 2)
+            on = rng.random() < 0.5
+            # a point of the plane: point + (any vector) - its normal component
+            w = rvec(rng, -2, 2, 2)
+            inplane = sub(w, mul(dot(w, n) / dot(n, n), n))
+            pos = add(point, inplane) if on else add(add(point, inplane), mul(rng.choice([Fr(1, 2), Fr(-1)]), n))
+            ab = [[str(rq(rng, -3, 3)), str(rq(rng, -3, 3))] for _ in range(3)]
+            cases.append({"kind": "plane", "point": S(point), "n": S(n), "pos": S(pos), "on": on, "ab": ab, "npseed": rng.randrange(2**31)})
+        # (b) rotation links whose leader is close to the axis (radius 1e-6 … 1e-5, ten times the coincidence limit
+        # and more), in coordinate-aligned and in general frames, turned by small and by large angles
+        for i in range(12 * mult):
+            fr = Frame(rng, aligned=(i % 2 == 0))
+            axis = fr.D(0, 0, rng.choice([1, 2, -3, Fr(1, 2)]))
+            o = fr.P(rq(rng, -2, 2), rq(rng, -2, 2), rq(rng, -2, 2)) if i % 4 else [Fr(0)] * 3
+            r = Fr(rng.choice([1, 2, 3, 5, 10]), 1000000)
+            direction = rng.choice([(1, 0), (0, 1), (-1, 0), (3, 4), (4, -3)])
+            scale = Fr(1, 5) if abs(direction[0]) + abs(direction[1]) > 1 else Fr(1)
+            leader = add(o, fr.D(r * direction[0] * scale, r * direction[1] * scale, rq(rng, -1, 1)))
+            follower = add(o, fr.D(rq(rng, 1, 3), rq(rng, 1, 3), rq(rng, -2, 2)))
+            na = math.sqrt(float(dot(axis, axis)))
+            moves = []
+            for _ in range(rng.randint(2, 3)):
+                if rng.random() < 0.6:  # a small turn: 2*atan2(|mu a|, w) of a few hundredths
+                    mu = Fr(rng.choice([1, -1, 2]), 2)
+                    moves.append({"w": str(int(round(abs(float(mu)) * na * rng.choice([40, 50, 80])))), "mu": str(mu)})
+                else:
+                    moves.append({"w": str(rng.randint(-3, 5) or 1), "mu": str(Fr(rng.choice([-3, -1, 1, 2, 5]), 2))})
+            cases.append({"kind": "rlink", "axis": S(axis), "o": S(o), "leader": S(leader), "follower": S(follower), "moves": moves, "small_radius": True})
+        # (c) leaders moved through the optimisation grid (GridBase.update, what the optimisers call), with two or
+        # three links on the same leader
+        for _ in range(10 * mult):
+            fr = Frame(rng)
+            pts = [fr.P(x + Fr(rng.randint(-1, 1), 10), y + Fr(rng.randint(-1, 1), 10), 0) for y in (0, 1, 2) for x in (0, 1, 2)]
+            li = rng.randrange(9)
+            others = [i for i in range(9) if i != li]
+            rng.shuffle(others)
+            links = []
+            for fi in others[: rng.choice([2, 2, 3])]:
+                if rng.random() < 0.6:
+                    links.append({"type": "t", "follower": fi})
+                else:
+                    links.append({"type": "s", "follower": fi, "n": S(fr.D(rq(rng, 1, 3), rq(rng, -2, 2), rq(rng, -1, 1))), "o": S(fr.P(1, rq(rng, -1, 1), 0))})
+            moves = [S(add(pts[li], fr.D(rq(rng, -1, 1) / 4, rq(rng, -1, 1) / 4, rq(rng, -1, 1) / 8))) for _ in range(rng.randint(1, 3))]
+            cases.append({"kind": "grid", "points": [S(p) for p in pts], "leader": li, "links": links, "moves": moves})
         # Round 2: histories — after the first move the caller may move the leader array in place
         # (leader += d, leader[:] = p, leader[i] = x) before the next update()
         for c in cases:
@@ -385,6 +437,41 @@ class C17(core.Check):
                 out["positions"].append(fl(clamp.position))
             return out
 
+        if k == "grid":
+            from classy_blocks.optimize.grid import QuadGrid
+
+            positions = np.array([FV(p) for p in case["points"]])
+            quads = [[0, 1, 4, 3], [1, 2, 5, 4], [3, 4, 7, 6], [4, 5, 8, 7]]
+            grid = QuadGrid(np.copy(positions), quads)
+            li = case["leader"]
+            links = []
+            for ld in case["links"]:
+                if ld["type"] == "t":
+                    link = cb.TranslationLink(positions[li], positions[ld["follower"]])
+                else:
+                    link = cb.SymmetryLink(positions[li], positions[ld["follower"]], FV(ld["n"]), FV(ld["o"]))
+                grid.add_link(link)
+                links.append(link)
+            out["steps"] = []
+            for m in case["moves"]:
+                target = np.array(FV(m))
+                snap = np.copy(target)
+                try:
+                    grid.update(li, target)
+                except (ValueError, FloatingPointError, ZeroDivisionError):
+                    pass  # the quality of a distorted cell is none of this property's business
+                out["steps"].append(
+                    {
+                        "leader_point": fl(grid.points[li]),
+                        "argument_intact": bool(np.array_equal(target, snap)),
+                        "links": [
+                            {"leader": fl(l.leader), "follower": fl(l.follower), "grid_point": fl(grid.points[ld["follower"]])}
+                            for l, ld in zip(links, case["links"])
+                        ],
+                    }
+                )
+            return out
+
         # ---- links: the leader is an array owned by the caller
         def observe(link, owned, snapshot):
             return {
@@ -483,6 +570,16 @@ class C17(core.Check):
             n, o = enc_v(FV(case["n"])), enc_v(FV(case["o"]))
             l0 = [float(int(Fr(c))) for c in case["leader"]] if case.get("int_leader") else FV(case["leader"])
             return [f"c17.slink {n} {o} {enc_v(l0)}"] + [f"c17.slink {n} {o} {enc_v(FV(m))}" for m in case["moves"]]
+        if k == "grid":
+            reqs = []
+            l0 = FV(case["points"][case["leader"]])
+            for m in case["moves"]:
+                for ld in case["links"]:
+                    if ld["type"] == "t":
+                        reqs.append(f"c17.tlink {enc_v(l0)} {enc_v(FV(case['points'][ld['follower']]))} {enc_v(FV(m))}")
+                    else:
+                        reqs.append(f"c17.slink {enc_v(FV(ld['n']))} {enc_v(FV(ld['o']))} {enc_v(FV(m))}")
+            return reqs
         if k == "rlink":
             a, o = FV(case["axis"]), enc_v(FV(case["o"]))
             l0, f0 = enc_v(FV(case["leader"])), enc_v(FV(case["follower"]))
@@ -546,6 +643,16 @@ class C17(core.Check):
                 w = chk(a, st["follower"], POS_TOL, f"SymmetryLink follower after leader -> {m}")
                 if w:
                     return w
+        elif k == "grid":
+            it = iter(model)
+            for m, st in zip(case["moves"], impl["steps"]):
+                for ld, ls in zip(case["links"], st["links"]):
+                    a = next(it)
+                    w = chk(a, ls["follower"], POS_TOL, f"grid.update: follower of link {ld} after leader -> {m}") or chk(
+                        a, ls["grid_point"], POS_TOL, f"grid.update: grid point of the follower of link {ld} after leader -> {m}"
+                    )
+                    if w:
+                        return w
         elif k == "rlink":
             for m, a, st in zip(case["moves"], model, impl["steps"]):
                 if "w" in m:
@@ -670,6 +777,29 @@ class C17(core.Check):
                 if not _near(FV(m), p, 1e-12):
                     out.append({"site": "FreeClamp:position", "what": f"params {m}", "observed": p})
                     break
+        elif k == "grid":
+            pts = [A(FV(p)) for p in case["points"]]
+            l0 = pts[case["leader"]]
+            for m, st in zip(case["moves"], impl["steps"]):
+                l1 = A(FV(m))
+                sc = _scale(l1)
+                if not st["argument_intact"] or not _near(l1, st["leader_point"], 1e-12 * sc):
+                    out.append({"site": "GridBase.update:leader", "what": f"leader -> {m}: the grid's leader point / the caller's position array is not the given position", "observed": st["leader_point"]})
+                    break
+                for ld, ls in zip(case["links"], st["links"]):
+                    f0 = pts[ld["follower"]]
+                    for which in ("follower", "grid_point"):
+                        f1 = A(ls[which])
+                        if ld["type"] == "t":
+                            ok = _near(f1 - l1, f0 - l0, 1e-9 * sc)
+                        else:
+                            n, o = A(FV(ld["n"])), A(FV(ld["o"]))
+                            nn = n / np.linalg.norm(n)
+                            ok = abs(((l1 + f1) / 2 - o) @ nn) <= 1e-9 * sc and np.linalg.norm(np.cross(f1 - l1, nn)) <= 1e-9 * sc
+                        if not ok:
+                            name = "TranslationLink" if ld["type"] == "t" else "SymmetryLink"
+                            out.append({"site": f"GridBase.update:{name}:{which}-does-not-follow", "what": f"leader {case['leader']} -> {m}: link to point {ld['follower']} (one of {len(case['links'])} links of this leader)", "observed": ls[which]})
+                            break
         else:
             name = {"tlink": "TranslationLink", "slink": "SymmetryLink", "rlink": "RotationLink"}[k]
             l0 = A([float(int(Fr(c))) for c in case["leader"]]) if case.get("int_leader") else A(FV(case["leader"]))
@@ -742,6 +872,10 @@ class C17(core.Check):
             return f"surface:{case['surface']}:" + ("on" if case["off"] == 0 else "off") + (":estimate" if case.get("est") is not None else "")
         if k in ("tlink", "slink") and (any(h != "assign" for h in case.get("how", [])) or case.get("backport")):
             return k + (":in-place-moves" if any(h != "assign" for h in case.get("how", [])) else "") + (":caller-applies-results-in-place" if case.get("backport") else "")
+        if k == "grid":
+            return "grid:" + "+".join(sorted(ld["type"] for ld in case["links"]))
+        if k == "rlink" and case.get("small_radius"):
+            return "rlink:leader-close-to-axis"
         if k == "rlink":
             return "rlink:" + "+".join(sorted({"exact" if "w" in m else "general" for m in case["moves"]}) or ["on-axis"]) + (":in-place-moves" if any(h != "assign" for h in case.get("how", [])) else "") + (":caller-applies-results-in-place" if case.get("backport") else "")
         return k
